@@ -105,6 +105,12 @@ func ApplyUnified(orig string, d *FileDiff) (string, error) {
 		if h.OldLen == 0 {
 			start = h.OldStart
 		}
+		if h.OldLen == 0 && start < pos {
+			// pure insertion placed before lines an earlier hunk already consumed (pkg/diff emits
+			// "-1,1 +0,0" followed by "-0,0 +1,1" when a one-line file changes): patch(1) applies it
+			// at the current position with an offset
+			start = pos
+		}
 		if start < pos || start > len(src) {
 			return "", fmt.Errorf("hunk %d starts at line %d, outside the file or overlapping", hi+1, h.OldStart)
 		}
